@@ -169,8 +169,9 @@ PROPS["C02"] = {
                    "is not taken, scratch->recurse_depth is restored.  %d exportable types x 7 writers.  Family 2 (bounded, c02_closure_*): the real "
                    "strip_line_tokens_from_block, for every text-carrying block type and every line kind the grammar can leave in such a block (enumerated "
                    "concretely, 27 kinds x 7 shapes per block type), leaves no LINE_* child the writers have no arm for, drops no inline token and keeps the "
-                   "child chain consistently linked." % len(_C02_E),
-    "slice": "mmd_export_token_html/latex/beamer/memoir/opendocument/opml/itmz (the switch statements; arms' callees havocked); strip_line_tokens_from_block (line-type closure, bounded shapes)",
+                   "child chain consistently linked.  Family 2b (c02_closure_deflist): the real strip_line_tokens_from_deflist leaves only empty-text, term and definition children "
+                   "for every LINE_* kind of the headers (1..3 children)." % len(_C02_E),
+    "slice": "mmd_export_token_html/latex/beamer/memoir/opendocument/opml/itmz (the switch statements; arms' callees havocked); strip_line_tokens_from_block, strip_line_tokens_from_deflist (line-type closure, bounded shapes)",
     "not_reached": "that the lemon automaton accepts every sequence of line kinds (%parse_failure unreachable): parser.c is generated table-driven code; "
                    "the line kinds a block can contain (set T of the closure units) and the writers' LINE_* arms are transcribed from parser.y / the writers by hand; "
                    "the sub-writers (*_raw, *_math, *_tt) have silent default arms and are not covered; memory safety of the arms is not claimed here",
